@@ -803,10 +803,9 @@ THOROUGH = [
     ("S3", "core4", 2, ("empty", "used"), ("aio",)),
     ("S3", "writes", 1, ("empty", "used"), ("ctx", "thr", "aio")),
     ("S2", "box", 2, ("empty", "boxed"), ("ctx", "aio", "thr")),
-    ("S2", "box6", 3, ("empty", "boxed"), ("ctx", "aio")),
+    ("S2", "box6", 3, ("empty", "boxed"), ("ctx",)),
     ("PC", "box", 2, ("empty", "boxed"), ("ctx", "aio")),
     ("PC", "box6", 2, ("empty", "boxed"), ("thr", "aiox")),
-    ("S3", "box6", 2, ("empty",), ("ctx",)),
     # round 2
     ("S2", "falsy", 2, ("empty", "used", "falsy"), ("ctx", "aio")),
     ("S2", "falsy10", 2, ("empty", "falsy"), ("aiox",)),
@@ -836,6 +835,7 @@ THOROUGH = [
     ("PC", "core6", 2, ("empty", "used"), ("aiox",)),
     ("S3", "core4", 1, ("used",), ("aiox",)),
     ("SH", "writes", 1, ("empty", "used"), ("ctx", "aio", "aiox")),
+    ("SH", "mid", 1, ("used",), ("ctx",)),
     ("SH", "core4", 2, ("empty", "used"), ("ctx", "aio")),
 ]
 # line level: (arrangement, alphabet, ops per context, starts, preemption bound)
